@@ -196,3 +196,39 @@ func VerifC13_AfterReset() {
 	vcheck("all-lock-bits-returned", lk.locks.bits == 0 && lk.bitPool.available == lk.bitPool.length)
 	vreach("end")
 }
+
+// ONE unsafe filter value, two threads, different per-query relation targets
+func VerifC13_SharedUnsafeFilterTargets() {
+	W := vShapeRel(1, 60, true, 0)
+	uf := NewUnsafeFilter(W.w, W.id[cR1])
+	p0, p1 := W.e[0].h, W.e[1].h
+	n0, n1, bad := 0, 0, 0
+	vthreads("race-free",
+		func() {
+			q := uf.Query(RelID(W.id[cR1], p0))
+			for q.Next() {
+				n0++
+				if q.GetRelation(W.id[cR1]) != p0 {
+					bad++
+				}
+			}
+		},
+		func() {
+			q := uf.Query(RelID(W.id[cR1], p1))
+			for q.Next() {
+				n1++
+			}
+		})
+	e0, e1 := 0, 0
+	for j := 0; j < W.n; j++ {
+		if W.e[j].alive && W.e[j].has[cR1] && W.e[j].tgt[0] == p0 {
+			e0++
+		}
+		if W.e[j].alive && W.e[j].has[cR1] && W.e[j].tgt[0] == p1 {
+			e1++
+		}
+	}
+	vcheck("exact", n0 == e0 && n1 == e1 && bad == 0)
+	vcheck("unlocked-after-join", !W.w.IsLocked())
+	vreach("end")
+}
